@@ -169,6 +169,20 @@ def gen_c07(ctx):
                                   phases=[[req(0, 0, reg=100, count=cnt), req(1, 20000, reg=300, count=cnt)]])
                         if framing == 'aa55': sc['framing'] = 'aa55'
                         out.append(sc)
+    # the first piece itself arrives late (but within the timeout), the exact remainder within the timeout after it -- also when both delays together
+    # exceed one timeout (the timer is re-armed by the first piece: mechanism 2 of the property)
+    for framing in ('udp', 'tcp', 'aa55'):
+        kind = 'tcp' if framing == 'tcp' else 'udp'
+        for cnt in (1, 5):
+            flen = 2 * cnt + (7 if framing == 'udp' else 9)
+            hdr = 5 if framing == 'udp' else 9
+            for k in sorted({hdr, hdr + 1, flen - 1}):
+                for first, delay in ((0.3, 0.3), (0.6, 0.6), (0.5, 0.7), (0.8, 0.5), (0.9, 0.9)) if (ctx.deep or k == hdr) else ((0.6, 0.6),):
+                    for ka in (False, True):
+                        sc = base(kind, ka, 2, [dict(frag=k, first=first, delay=delay, second='exact')], default='N',
+                                  phases=[[req(0, 0, reg=100, count=cnt), req(1, 20000, reg=300, count=cnt)]])
+                        if framing == 'aa55': sc['framing'] = 'aa55'
+                        out.append(sc)
     # register contents that look like protocol bytes: every register holds 0xAA55 (the response header), 0xF703, 0xFFFF, 0x0000 -- a remainder then
     # starts with header-like bytes at every even split point
     for pay in ('aa55', 'f703', 'ffff', '0000', '55aa'):
